@@ -1320,7 +1320,7 @@ func (r *Raft) electionLoop() {
 // of the cluster and this node has not been contacted by the leader
 // within an election timeout.
 func (r *Raft) election() {
-	if r.state == Leader || r.state == Shutdown || !r.isVoter(r.id) ||
+	if r.state == Leader || r.state == Shutdown || !r.mayCampaign() ||
 		time.Since(r.lastContact) < r.options.electionTimeout {
 		return
 	}
@@ -1347,7 +1347,11 @@ func (r *Raft) sendRequestVoteToPeers() {
 	}
 
 	// Send RequestVote RPCs to all voting members of the cluster.
-	votesRecieved := 1
+	// The vote of this node only counts if it is a voting member of the configuration in use.
+	votesRecieved := 0
+	if r.isVoter(r.id) {
+		votesRecieved = 1
+	}
 	isPrevote := r.state == PreCandidate
 	for id, address := range r.configuration.Members {
 		if id != r.id && r.isVoter(id) {
@@ -1368,8 +1372,8 @@ func (r *Raft) sendRequestVote(id string, address string, votes *int, prevote bo
 	}
 
 	// Do not send requests to non-voting members and only send
-	// requests if this node is a voting member of the cluster.
-	if !r.isVoter(id) || !r.isVoter(r.id) {
+	// requests if this node may take part in elections.
+	if !r.isVoter(id) || !r.mayCampaign() {
 		return
 	}
 
@@ -2307,6 +2311,21 @@ func (r *Raft) appendConfiguration(configuration *Configuration) {
 // is a voting member of the cluster and false otherwise.
 func (r *Raft) isVoter(id string) bool {
 	return r.configuration.IsVoter[id]
+}
+
+// mayCampaign returns true if this node may start elections: it is a voting member of the
+// configuration in use, or that configuration removes it (or takes away its vote) but has not
+// been committed yet and the last committed configuration has it as a voting member. In the
+// latter case the node may hold entries that no voting member of the new configuration holds -
+// the configuration entry itself, for one - so that none of them can win an election and the
+// change can only be completed (or overwritten) if this node is still able to lead. Its own vote
+// does not count then, and it steps down once the configuration is committed.
+func (r *Raft) mayCampaign() bool {
+	if r.isVoter(r.id) {
+		return true
+	}
+	return r.pendingConfigurationChange() && r.committedConfiguration != nil &&
+		r.committedConfiguration.IsVoter[r.id]
 }
 
 // isMember returns true if the node with the provided ID
